@@ -1796,7 +1796,10 @@ sexp sexp_quotient (sexp ctx, sexp a, sexp b) {
     }
     break;
   case SEXP_NUM_FIX_BIG:
-    r = SEXP_ZERO;
+    /* |a| < |b|, except for the most negative fixnum over +-2^62 */
+    r = (sexp_unbox_fixnum(a) == SEXP_MIN_FIXNUM && sexp_bignum_hi(b) == 1
+         && sexp_bignum_data(b)[0] == (sexp_uint_t)SEXP_MAX_FIXNUM+1)
+      ? sexp_make_fixnum(-sexp_bignum_sign(b)) : SEXP_ZERO;
     break;
   case SEXP_NUM_BIG_FIX:
     b = tmp = sexp_fixnum_to_bignum(ctx, b);
@@ -1875,7 +1878,10 @@ sexp sexp_remainder (sexp ctx, sexp a, sexp b) {
     r = sexp_fx_rem(a, b);
     break;
   case SEXP_NUM_FIX_BIG:
-    r = a;
+    /* |a| < |b|, except for the most negative fixnum over +-2^62 */
+    r = (sexp_unbox_fixnum(a) == SEXP_MIN_FIXNUM && sexp_bignum_hi(b) == 1
+         && sexp_bignum_data(b)[0] == (sexp_uint_t)SEXP_MAX_FIXNUM+1)
+      ? SEXP_ZERO : a;
     break;
   case SEXP_NUM_BIG_FIX:
     r = sexp_bignum_fxrem(ctx, a, sexp_unbox_fixnum(b));
